@@ -28,7 +28,7 @@ def N():
 def body_symbols(n, name):
     other = 'zother'
     return ['{', '}', '[', ']', '$', '$$', '\\' + n.x, '\\begin{%s}' % n.e, '\\end{%s}' % n.e, '\\begin{%s}' % name,
-            '\\end{%s}' % other, '\\item', '(', n.a, n.sp, '\n', '%c\n']
+            '\\end{%s}' % other, '\\end{%sx}' % name, '\\item', '(', n.a, n.sp, '\n', '%c\n']
 
 
 def bodies(n, name, maxlen):
